@@ -224,6 +224,14 @@ def random_history(rnd, n_acts, fresh_only=True):
                         break
             if fresh_only and (x == y or children(h, y) or y in desc(h, x)):
                 continue
+            if fresh_only and rnd.random() < 0.4 and G["nodes"][y] != "prior" and y not in G.setdefault("named", {}):
+                # the replacement gets a keyword parent first (model.add_edge), then replaces x
+                cand = [p for p in user if p not in (x, y) and (p, y) not in G["edges"] and p not in desc(h, y) and p not in desc(h, x)]
+                if cand:
+                    p = rnd.choice(cand)
+                    G["named"][y] = p
+                    G["edges"].add((p, y))
+                    acts.append(dict(a="addedge", h=h, x=y, y=p, v=-1))
             acts.append(dict(a="become", h=h, x=x, y=y))
             if not fresh_only:
                 return acts          # after a non-fresh become the python-side list model is not maintained
